@@ -419,6 +419,16 @@ def tasks_for(tier, seed):
     word_shapes_2 = [[[1], [1]], [[1, 1], [1]], [[2], [1, 1]], [[1], [2, 1]]]
     word_shapes_3 = [[[1], [1], [1]], [[1, 1], [1], [1, 1]]]
     tls = [0, 1, 2, 3] if tier == "quick" else [0, 1, 2, 3, 4, 5]
+    if tier == "thorough":
+        # longer names and arguments, every step-number set and indentation (enumerated instead of drawn)
+        for ws in ([[3]], [[3, 1]], [[2, 3]], [[2, 2, 2]], [[3], [2]], [[1, 3], [3]]):
+            for numbers in numbers_sets:
+                for indent in (1, 4, 7):
+                    for entry in ("content", "status"):
+                        tasks.append({"kind": "ff", "entry": entry, "word_lens": ws, "trailer_len": 2 if len(ws) == 1 else 0,
+                                      "numbers": numbers[: len(ws)], "indent": indent, "header": (indent + len(ws)) % 4,
+                                      "trailer": indent % 3, "crlf": indent == 7, "blank_after_plan": indent != 1,
+                                      "free_line": len(ws) == 1})
     for entry in ("content", "status", "parse_plan"):
         for ws in word_shapes_1 + word_shapes_2 + (word_shapes_3 if tier == "thorough" else word_shapes_3[:1]):
             for tl in tls:
